@@ -104,7 +104,7 @@ var keyPool = []keyInfo{
 	{"4294967294", "4294967294", "", "index-max", true}, {"4294967295", "4294967295", "", "index-max+1", true},
 	{"-0", "-0", "", "canonical-numeric", false}, {"1.5", "1.5", "", "canonical-numeric", true}, {"-1", "-1", "", "canonical-numeric", true},
 	{"NaN", "NaN", "", "canonical-numeric", true}, {"1e3", "1e3", "", "noncanonical-numeric", false},
-	{"a", "a", "", "string", false}, {"b", "b", "", "string", false}, {"A", "A", "", "string", false}, {"M", "M", "", "string", false},
+	{"a", "a", "", "string", false}, {"b", "b", "", "string", false}, {"A", "A", "", "string", false}, {"B", "B", "", "string", false}, {"M", "M", "", "string", false},
 	{"length", "length", "", "length", false}, {"prototype", "prototype", "", "prototype", false},
 	{"name", "name", "", "special", false}, {"callee", "callee", "", "special", false}, {"__proto__", "__proto__", "", "special", false},
 	{"S1", "", "S1", "symbol", false}, {"S2", "", "S2", "symbol", false},
